@@ -87,6 +87,9 @@ def plan(tier, seed):
             bounds.append((alt, s))
     for w in ("until", "til", "no later than"):
         bounds.append((w, "to"))  # the statement names 'before/until X'
+    # every bound word also capitalised and in upper case (the patterns are case-insensitive; so must the side be)
+    bounds += [(a.capitalize(), s_) for a, s_ in bounds] + [(a.upper(), s_) for a, s_ in bounds if a.startswith(("not ", "nicht "))]
+    bounds = list(dict.fromkeys(bounds))
     xs = ["5pm", "17:30", "8.5.2018", "monday", "tomorrow", "12.5."]
     joins_clock = JOINS if tier == "thorough" else ["-", " - ", "to", "bis", "between", "von"]
     variants = [("00", 0, 0), ("30-35", 30, 35), ("digits", 0, 0)]
@@ -245,7 +248,7 @@ def run_case(case):
         return out
     if kind == "bound":
         _, text, x, side, alt, _ts = case
-        if res_obs(parse(alt, ts, latent_time=False)) is not None:
+        if res_obs(parse(alt.lower(), ts, latent_time=False)) is not None:
             return {"o": "bound:skip", "skip": "bound word is itself a time expression under the library's patterns (e.g. 'latest' = last part of day)", "nt": False}
         got = res_obs(parse(text, ts, latent_time=False))
         xo = res_obs(parse(x, ts, latent_time=False))
